@@ -23,11 +23,6 @@ use std::sync::atomic::{AtomicUsize, Ordering};
 use std::task::{Context, Poll};
 use tower::{Layer, Service};
 
-/// How a determinable authority that carries userinfo and is answered 400 only because of the
-/// `authority[host.len()..]` slice is reported: `false` = counted observation, `true` = oracle
-/// failure attributed to the finding key `userinfo-port-slice`.
-const USERINFO_400_IS_FINDING: bool = false;
-
 // ------------------------------------------------------------------------------------------------
 // implementation side
 
@@ -191,11 +186,7 @@ fn run_auth(out: &mut Out, s: &str) {
 		Err(_) => ("panic".to_string(), Err(format!("Authority::try_from panicked on {s:?}"))),
 		Ok(Err(_)) => {
 			let v = match oracle_parse(s, true) {
-				OParse::Ok(a) if !a.userinfo => Err(format!("Authority::try_from({s:?}) fails, independent parser finds {}:{:?}", a.host, a.port)),
-				OParse::Ok(_) => {
-					out.count("obs.auth.userinfo_parse_error");
-					Ok(())
-				}
+				OParse::Ok(a) => Err(format!("Authority::try_from({s:?}) fails, independent parser finds {}:{:?}", a.host, a.port)),
 				_ => Ok(()),
 			};
 			("err".to_string(), v)
@@ -523,40 +514,15 @@ fn oracle_hf(out: &mut Out, c: &Case, seen: Seen, calls: usize) -> Result<(), St
 		return Ok(());
 	}
 	let entries: Option<Vec<OAuth>> = entries.map(|l| l.into_iter().map(|e| if let OParse::Ok(a) = e { a } else { unreachable!() }).collect());
-	// The statement's reading: every well-formed source counts.
-	let first = judge(&sources, &entries, seen);
-	match first {
+	// every well-formed source counts, with or without userinfo
+	match judge(&sources, &entries, seen) {
 		Ok(obs) => {
 			for k in obs {
 				out.count(k);
 			}
 			Ok(())
 		}
-		Err(e) => {
-			// A source that carries userinfo may be treated as unparsable by the filter (the port is
-			// sliced from the front of the authority text, see c14_userinfo_port): accept the outcome
-			// if it is right for some choice of "userinfo-bearing source = unparsable".
-			let ui: Vec<usize> = sources.iter().enumerate().filter_map(|(i, s)| if matches!(s, OParse::Ok(a) if a.userinfo) { Some(i) } else { None }).collect();
-			for mask in 1u32..(1u32 << ui.len()) {
-				let mut alt = sources.clone();
-				for (k, i) in ui.iter().enumerate() {
-					if mask & (1 << k) != 0 {
-						alt[*i] = OParse::Invalid;
-					}
-				}
-				if let Ok(obs) = judge(&alt, &entries, seen) {
-					for k in obs {
-						out.count(k);
-					}
-					out.count("obs.userinfo_source_treated_as_unparsable");
-					if USERINFO_400_IS_FINDING {
-						return Err(format!("KF userinfo-port-slice outcome only explained by treating a userinfo-bearing authority as unparsable ({e})"));
-					}
-					return Ok(());
-				}
-			}
-			Err(e)
-		}
+		Err(e) => Err(e),
 	}
 }
 
@@ -1053,7 +1019,7 @@ fn main() {
 	}
 	let obs: Vec<String> = out.dist.iter().filter(|(k, _)| k.starts_with("obs.")).map(|(k, v)| format!("{k}={v}")).collect();
 	out.notes.push(format!(
-		"observations (counted, never violations): {}. obs.fwd.named_wildcard_entry = admitted only because route_recognizer reads `*name`/`:name` segments as wildcards; obs.fwd.star_spans_labels = admitted because `*` spans several labels; obs.403.some_entry_matches_best_pattern_only = some entry matches but the router consults only the best pattern's ports (completeness is claimed for a single entry only); obs.userinfo_source_treated_as_unparsable = the outcome is right only if a well-formed authority that carries userinfo counts as unparsable (the port is sliced from the front of the authority text)",
+		"observations (counted, never violations): {}. obs.fwd.named_wildcard_entry = admitted only because route_recognizer reads `*name`/`:name` segments as wildcards; obs.fwd.star_spans_labels = admitted because `*` spans several labels; obs.403.some_entry_matches_best_pattern_only = some entry matches but the router consults only the best pattern's ports (completeness is claimed for a single entry only);",
 		if obs.is_empty() { "none".to_string() } else { obs.join(", ") }
 	));
 	out.write(&a.out);
